@@ -50,14 +50,21 @@ func procRoot() string {
 	return d
 }
 
-func startProc(kind string, extra ...string) *proc {
+func startProc(kind string, extra ...string) *proc { return startProcScheme("http", kind, extra...) }
+
+// startProcTLS: the API listens on https (the caller passes the certificate flags).
+func startProcTLS(kind string, extra ...string) *proc {
+	return startProcScheme("https", kind, extra...)
+}
+
+func startProcScheme(scheme, kind string, extra ...string) *proc {
 	p := &proc{dir: procRoot(), api: freePort(), repl: freePort(), done: make(chan struct{})}
 	raft, rest, ml := freePort(), freePort(), freePort()
 	args := []string{
 		kind,
 		fmt.Sprintf("--raft.address=127.0.0.1:%d", raft),
 		fmt.Sprintf("--raft.initial-members=1=127.0.0.1:%d", raft),
-		fmt.Sprintf("--api.address=http://127.0.0.1:%d", p.api),
+		fmt.Sprintf("--api.address=%s://127.0.0.1:%d", scheme, p.api),
 		fmt.Sprintf("--rest.address=http://127.0.0.1:%d", rest),
 		fmt.Sprintf("--memberlist.address=127.0.0.1:%d", ml),
 		"--raft.node-host-dir=" + filepath.Join(p.dir, "nh"), "--raft.state-machine-dir=" + filepath.Join(p.dir, "sm"),
